@@ -1,6 +1,6 @@
 """C09 File preamble and block parameters survive write -> read unchanged (structural clauses)."""
 from .. import ir, emission, consumption, agreement, tables
-from ..ir import (path, path_str, unwrap, callee_name, callee_qn, const_value, show, show_f, Env, conjuncts)
+from ..ir import (path, path_str, unwrap, unwrap_all_casts, callee_name, callee_qn, const_value, show, show_f, Env, conjuncts)
 from ..facts import AnalysisBroken
 
 META = {
@@ -190,6 +190,25 @@ def check(run):
         if rp and len(rp) == 1 and rp[0].startswith("l:") and len(commits) == 1 and g_read and commits[0][0] == g_read[0] and \
                 path(commits[0][1]) == rp and commits[0][2].get("l", 0) >= rcalls[0].get("l", 0):
             ok, why = True, "header parses into a local preamble exactly once and commits it to m_file_preamble unconditionally"
+        elif rp and len(rp) == 1 and rp[0].startswith("l:") and g_read:
+            # committed member by member (assignments, swaps): every member of FilePreamble, from the same member of the local,
+            # on the paths on which the preamble was parsed
+            fp_fields = [f_["n"] for f_ in facts.record("CDNS::FilePreamble", rule="R09.5")["fields"]]
+            got = {}
+            for st, g, loops in ir.guarded_statements(rh["body"], env_h):
+                if st.get("k") in ("IfCond", "LoopHead", "SwitchHead"):
+                    continue
+                for lp, rhs, node in consumption.assignment_targets([st]):
+                    if lp and len(lp) == 3 and lp[:2] == ("this", "m_file_preamble") and path(unwrap_all_casts(rhs)) == rp + (lp[2],):
+                        got[lp[2]] = g
+                for c_ in ir.calls_in(st):
+                    if c_.get("k") == "MCall" and callee_name(c_) == "swap" and len(c_.get("args", [])) == 1:
+                        a_, b_ = path(c_.get("recv")), path(unwrap_all_casts(c_["args"][0]))
+                        for x_, y_ in ((a_, b_), (b_, a_)):
+                            if x_ and y_ and len(x_) == 3 and x_[:2] == ("this", "m_file_preamble") and y_ == rp + (x_[2],):
+                                got[x_[2]] = g
+            if sorted(got) == sorted(fp_fields) and all(g_ == g_read[0] for g_ in got.values()):
+                ok, why = True, "header parses into a local preamble exactly once and commits every member of it to m_file_preamble unconditionally"
     run.ob("R09.5", "read_file_header:preamble", ok, rh, rh["line"], why if ok else
            "the file preamble is not parsed exactly once into m_file_preamble (directly, or through a local that is committed unconditionally)")
     # reader sequence: array start, text, preamble, array start
